@@ -133,6 +133,9 @@ struct OpPlan {
     finish_after: usize,
     /// extra next() calls after the end of the stream
     extra_next: usize,
+    /// the caller walks away without telling the library: a single operation's future is dropped after this many ms by an
+    /// outer select!, a search stream is dropped instead of finished (0 = never)
+    walk_away: u64,
     /// script mode: stream calls are commanded one by one (Some) instead of planned (None)
     cmds: Option<std::sync::Arc<tokio::sync::Mutex<tokio::sync::mpsc::UnboundedReceiver<Cmd>>>>,
     /// script mode: where the actor reports how far it got (0 = running, 1 = stream ready, 2 = done)
@@ -177,10 +180,26 @@ async fn actor_inner(p: OpPlan, ldap: &mut Ldap, completed: &std::sync::Arc<std:
     }
     match p.kind {
         Kind::Single => {
-            let r = match o % 3 {
-                0 => ldap.simple_bind("cn=x", "pw").await,
-                1 => ldap.compare("cn=x", "cn", "x").await.map(|c| c.0),
-                _ => ldap.delete("cn=x").await,
+            let r = if p.walk_away > 0 {
+                let r = tokio::select! {
+                    biased;
+                    r = ldap.delete("cn=x") => Some(r),
+                    _ = tokio::time::sleep(Duration::from_millis(p.walk_away)) => None,
+                };
+                match r {
+                    Some(r) => r,
+                    None => {
+                        // the operation's future has been dropped by now; the library sends no scrub for it
+                        emit(format!("\"ev\":\"Cancel\",\"o\":\"o{}\"", o));
+                        return;
+                    }
+                }
+            } else {
+                match o % 3 {
+                    0 => ldap.simple_bind("cn=x", "pw").await,
+                    1 => ldap.compare("cn=x", "cn", "x").await.map(|c| c.0),
+                    _ => ldap.delete("cn=x").await,
+                }
             };
             match r {
                 Ok(res) => emit(format!("\"ev\":\"Ret\",\"o\":\"o{}\",\"r\":\"val\",\"tok\":{},\"rc\":{},\"closed\":{}", o, tok_of(&res.text), res.rc, ldap.is_closed())),
@@ -248,6 +267,11 @@ async fn actor_inner(p: OpPlan, ldap: &mut Ldap, completed: &std::sync::Arc<std:
                             break;
                         }
                     }
+                    if p.walk_away > 0 {
+                        drop(st);
+                        emit(format!("\"ev\":\"StreamDrop\",\"o\":\"o{}\"", o));
+                        return;
+                    }
                     let res = st.finish().await;
                     emit(format!(
                         "\"ev\":\"Finish\",\"o\":\"o{}\",\"rc\":{},\"tok\":{},\"st\":\"{:?}\"",
@@ -280,10 +304,11 @@ struct Profile {
     unbind: bool,
     many_items: bool,
     stall: bool,
+    walk_away: bool,
 }
 
 fn profile(name: &str) -> Profile {
-    let mut p = Profile { timeouts: false, faults: false, orphans: false, burst: false, unbind: false, many_items: false, stall: false };
+    let mut p = Profile { timeouts: false, faults: false, orphans: false, burst: false, unbind: false, many_items: false, stall: false, walk_away: false };
     match name {
         "plain" => {}
         "timeouts" => p.timeouts = true,
@@ -299,6 +324,10 @@ fn profile(name: &str) -> Profile {
         "long" => p.many_items = true,
         "stall" => {
             p.stall = true;
+            p.timeouts = true
+        }
+        "drops" => {
+            p.walk_away = true;
             p.timeouts = true
         }
         "stallfaults" => {
@@ -471,6 +500,7 @@ fn run_scenario(seed: u64, prof: &Profile, out: &mut Vec<String>, rep: &mut Repo
                     target,
                     finish_after: if rng.gen_bool(0.3) { rng.gen_range(0..3) } else { usize::MAX },
                     extra_next: if rng.gen_bool(0.2) { 1 } else { 0 },
+                    walk_away: if prof.walk_away && matches!(kind, Kind::Single | Kind::Search) && rng.gen_bool(0.4) { rng.gen_range(1..4) } else { 0 },
                     cmds: None,
                     status: None,
                 };
@@ -656,6 +686,8 @@ fn run_scenario(seed: u64, prof: &Profile, out: &mut Vec<String>, rep: &mut Repo
             }
         }
         if !hung {
+            // everything the client wrote has been read by the server by now
+            absorb_written(&io, &mut pending, &mut known_ids);
             // snapshot at the quiescent point, through the public test accessor
             if let Some(l) = ldap.as_ref() {
                 let (last, used) = l.verif_msgmap();
@@ -773,6 +805,7 @@ fn run_script(n: u64, script: &[serde_json::Value], out: &mut Vec<String>, rep: 
                         target,
                         finish_after: usize::MAX,
                         extra_next: 0,
+                        walk_away: 0,
                         cmds: Some(std::sync::Arc::new(tokio::sync::Mutex::new(rx))),
                         status: Some(status.clone()),
                     };
@@ -978,6 +1011,7 @@ fn run_script(n: u64, script: &[serde_json::Value], out: &mut Vec<String>, rep: 
             }
         }
         if !hung {
+            absorb_written(&io, &mut pending, &mut known_ids);
             if let Some(l) = ldap.as_ref() {
                 let (last, used) = l.verif_msgmap();
                 emit(format!("\"ev\":\"Quiet\",\"last\":{},\"used\":{:?}", last, used));
